@@ -754,6 +754,24 @@ class SymStr:
         parts.append(SymStr.mk(cur))
         return parts
 
+    def expandtabs(s, tabsize=8):
+        """str.expandtabs: the column restarts after a newline / carriage return (every test forks as usual)"""
+        out, colm = [], 0
+        for x in s.it:
+            c = _one(x)
+            if c == "\t":
+                if tabsize > 0:
+                    n = tabsize - colm % tabsize
+                    out += [" "] * n
+                    colm += n
+            elif contains("\n\r", c):
+                out.append(x)
+                colm = 0
+            else:
+                out.append(x)
+                colm += 1
+        return SymStr.mk(out)
+
     def splitlines(s, keepends=False):
         if keepends:
             raise EngineGap("splitlines(keepends)")
@@ -1018,6 +1036,8 @@ def contains(container, item):
     if ti is not SymStr and ti is not SymInt and ti is not Rope:
         if tc is dict and _SYMKEYED and id(container) in _SYMKEYED and ti is str:
             return (item in container) or _dict_find(container, item) is not None
+        if tc is set and _SYMKEYED and id(container) in _SYMKEYED and ti is str:
+            return (item in container) or any(isinstance(k, SymKey) and len(k.s) == len(item) and k.s == item for k in list(container))
         if tc is str or tc is dict or tc is set or tc is frozenset:
             return item in container
         if tc is list or tc is tuple:
@@ -1042,7 +1062,7 @@ def contains(container, item):
     if isinstance(container, dict):
         container = [(k.s if isinstance(k, SymKey) else k) for k in container.keys()]
     if isinstance(container, (set, frozenset)):
-        container = sorted(container, key=repr)
+        container = [(k.s if isinstance(k, SymKey) else k) for k in sorted(container, key=repr)]
     if isinstance(container, (list, tuple)):
         if ti is SymStr:
             return _b(k_or([item.eq_key(x) for x in container if isinstance(x, (str, SymStr))]))
@@ -1173,6 +1193,74 @@ def rt_set(*args):
     for x in items:
         out.add(x)
     return out
+
+
+class FunctoolsShim:
+    """stands in for `functools` inside rewritten modules: lru_cache / cache memoise by (forking) equality of the arguments, so
+    that symbolic strings can be cache keys; everything else is the real module"""
+
+    def __getattr__(self, name):
+        import functools
+        return getattr(functools, name)
+
+    @staticmethod
+    def _memo(fn):
+        import functools
+        table = []
+
+        @functools.wraps(fn)
+        def wrapper(*args, **kw):
+            key = args + tuple(sorted(kw.items()))
+            for k, v in table:
+                if len(k) == len(key) and all((a is b) or (a == b) for a, b in zip(k, key)):
+                    return v
+            v = fn(*args, **kw)
+            table.append((key, v))
+            return v
+        wrapper.cache_clear = table.clear
+        wrapper._symx_table = table
+        return wrapper
+
+    def lru_cache(self, maxsize=128, typed=False):
+        if callable(maxsize):
+            return self._memo(maxsize)
+        return self._memo
+
+    def cache(self, fn):
+        return self._memo(fn)
+
+
+def rt_str(*args):
+    """str(x): an object whose __str__ builds its text from symbolic parts returns a SymStr"""
+    if len(args) != 1:
+        return str(*args)
+    x = args[0]
+    if isinstance(x, (str, SymStr)):
+        return x
+    if isinstance(x, SymInt):
+        return str(x.concretize())
+    try:
+        return str(x)
+    except TypeError:
+        r = type(x).__str__(x)
+        if isinstance(r, (str, SymStr)):
+            return r
+        raise
+
+
+def rt_add(obj, x):
+    """obj.add(x): a real set receiving a symbolic string keeps it as a SymKey (unless the path determines its value)"""
+    if isinstance(obj, (set,)) and isinstance(x, SymStr):
+        try:
+            obj.add(x.unique())
+            return None
+        except EngineGap:
+            pass
+        if not contains(obj, x):
+            obj.add(SymKey(x))
+            _SYMKEYED.add(id(obj))
+        return None
+    return obj.add(x)
 
 
 def rt_get(obj, key, *default):
